@@ -108,6 +108,9 @@ def run(ctx):
         ctx.add('W1.coverage', str(need), loc(B.root), need in seen, 'no Ok path for (scheme, starttls) = %s' % (need,))
     # scheme tag: "starttls" exactly when scheme is ldap and settings.starttls()
     clones = [n for n, c in walk(B.root) if n['k'] == 'MethodCall' and (callee_of(n) or '').endswith('Clone>::clone') and 'ldap3::ldap::Ldap' in hirq.strip_refs(n['recv'].get('ty', ''))]
+    # what `success()` means for the StartTLS response: Ok exactly for result code 0 (decided over the finite partition, shared with C03 T4)
+    from props import C03
+    C03.check_result_helpers(ctx, f, 'W2.success-means-rc-0', only=('ldap3::result::ExopResult::success',))
     ctx.add('W2.handle-not-cloned', NT, loc(B.root), not clones, 'the handle is cloned during establishment')
     # ---- W3 global: from_parts never used; parts fields
     fp = hirq.all_calls(f, lambda c: 'Framed' in c and c.endswith('::from_parts'))
